@@ -75,6 +75,8 @@ def run_cases(stream, cases, pkg, procs=8, per_proc_min=20):
 def first_diff(stream, impl, model):
     same = getattr(stream, "same", None) or (lambda a, b: a == b)
     for k, (a, b) in enumerate(zip(impl, model)):
+        if b == "skip":          # implementation-only op: the property oracle decides, not the model
+            continue
         if not same(a, b):
             return k
     if len(impl) != len(model):
